@@ -216,7 +216,15 @@ def mk_DEBUGEMPTY(label):
 
 
 # healthy archetypes used by single families only (kept out of the all-pairs products)
-HEALTHY_EXTRA = {'PQONLY': mk_PQONLY}
+def mk_GEXTHROTTLE(label):
+    # a server that starts refusing connections after the fourth (MaxStartups, fail2ban): its first modulus probe is answered, the rest are refused
+    s = peer.Server(label=label, kex=['curve25519-sha256', 'diffie-hellman-group-exchange-sha256'], gex=peer.GexPolicy([2048, 4096], peer.STRICT),
+                    host_keys=_hk(['ssh-ed25519']), banner=b'SSH-2.0-dropbear_2022.83')
+    s.conn_behaviour = lambda i: 'normal' if i < 3 else 'refuse'
+    return s
+
+
+HEALTHY_EXTRA = {'PQONLY': mk_PQONLY, 'GEXTHROTTLE': mk_GEXTHROTTLE}
 
 FAILING = {
     'UNRESOLVABLE': None, 'REFUSED': mk_REFUSED, 'CONNTIMEOUT': mk_CONNTIMEOUT, 'SILENT': mk_SILENT, 'CLOSEEARLY': mk_CLOSEEARLY,
